@@ -386,7 +386,7 @@ impl Server for Unreal2Server {
         let n = self.attempts[k];
         self.attempts[k] += 1;
         match self.outcomes[k].get(n).copied().unwrap_or(Outcome::Valid) {
-            Outcome::Silent => {}
+            Outcome::Silent | Outcome::Partial => {}
             Outcome::Malformed => {
                 if cx.draw(2) == 0 {
                     cx.udp_send(from, vec![0x80, 0, 0]);
